@@ -40,6 +40,12 @@ class BuiltinMixin:
             if isinstance(v.t, TSet):
                 return V(INT, self.set_size(st, v))
             raise Unsupported(f"len of {v.t}")
+        if name == "super" and not args:
+            selfv = st.locals.get("self")
+            ci = self.ctx[-1][1]
+            if selfv is None or ci is None:
+                raise Unsupported("super() outside a method")
+            return V(TPy("super"), ("super", selfv, ci))
         if name == "pow" and len(args) == 2:
             return self.binop(ast.Pow(), args[0], args[1], st, node)
         if name in ("min", "max"):
@@ -307,6 +313,8 @@ class BuiltinMixin:
             st.pc.append(z3.And(r >= 0, r < 2 ** 32)) if not self.spec_mode else None
             self.note_assumption("google_crc32c.value is an uninterpreted function with a 32-bit result")
             return V(INT, r)
+        if full in ("asyncio.ensure_future", "asyncio.create_task"):
+            return fresh(ANY, "task")
         if full == "random.random":
             r = fresh(REAL, "rand")
             st.pc.append(z3.And(r.z >= 0, r.z < 1))
